@@ -228,6 +228,19 @@ def r2(c):
     fe = gm.formula(end_y[0], G.GuardEnv(rename=lambda s: s.replace('"', "'")))
     ok = any(a in ("'#' in comments",) for a in G.atoms(fe)) and G.implies(fe, G.Atom("'#' in comments"))
     c.check("C05.R2", ok, repo.loc(m, end_y[0]), "_filtered_lines/section-break-needs-marker", "the '#' reset is taken even when '#' is not a comment marker", key_text="marker")
+    # "column 0" means column 0 of the text as given: the default splitter hands the lines on untouched
+    sp = repo.func(TAB, "CommonFormatter.split", canon=False)
+    pvs = Provenance(sp)
+    tp = sp.args.args[1].arg if len(sp.args.args) > 1 else "text"
+    splits = [x for x in calls_in(sp) if isinstance(x.func, ast.Attribute) and x.func.attr in ("split", "splitlines")]
+    okc = bool(splits)
+    for x in splits:
+        rv = pvs.resolve_alias(x.func.value)
+        okc = okc and isinstance(rv, ast.Name) and rv.id == tp and all(d.kind == "param" for d in pvs.rd.defs(rv))
+    rewr = [x for x in calls_in(sp) if call_name(x).split(".")[-1] in ("dedent", "expandtabs", "lstrip", "strip", "indent", "replace", "sub")]
+    c.check("C05.R2", okc and not rewr, repo.loc(m, (rewr or splits or [sp])[0]), "CommonFormatter.split/lines-as-given", f"the default splitter rewrites the text before cutting it into lines "
+            f"(`{norm((rewr or splits or [sp])[0])[:60]}`): columns shift, so an indented `#` comment can land in column 0 and be taken for a section break (and the offside base "
+            "of every section changes)", key_text="split-rewrites")
 
 
 def _body_paths(stmts, cursor, key):
